@@ -26,7 +26,7 @@ def r_heads(prog, tier):
         hops += 1
     cfg = f.cfg
     if len(f.params) < 3:
-        raise Unrecognised('get_headpos_by_rule: parameters (parent, children, rules) not found')
+        raise Unrecognised('get_headpos_by_rule: parameters (parent, children, rules) not found', partial=obs)
     plab, clab, rules = f.params[0], f.params[1], f.params[2]
     # ---- representation of the tables: Dict[str, List[Tuple[Dir, space separated list]]]
     for tbl in ('HEAD_RULES_PTB', 'HEAD_RULES_NEGRA'):
@@ -40,7 +40,7 @@ def r_heads(prog, tier):
     # ---- the priority string is only tested for emptiness or split
     hloops = [n for n in cfg.eval_nodes() if n.kind == 'iter' and unparse(n.ast.iter).startswith(rules + '[')]
     if len(hloops) != 1:
-        raise Unrecognised('get_headpos_by_rule: loop over the rules of the parent category not found')
+        raise Unrecognised('get_headpos_by_rule: loop over the rules of the parent category not found', partial=obs)
     H = hloops[0]
     hv = unparse(H.ast.target)
     ssl = '%s[1]' % hv
@@ -70,7 +70,7 @@ def r_heads(prog, tier):
             obs.append(Ob('R-HEADS/SSL', f.fq, 'the category list of a rule (`%s`) is only measured or split' % ssl, ok, how,
                           construct='ssl:' + unparse(p)[:50], line=n.lineno))
     if nuse < 2:
-        raise Unrecognised('get_headpos_by_rule: uses of the category list not found')
+        raise Unrecognised('get_headpos_by_rule: uses of the category list not found', partial=obs)
     # ---- every loop can reach its next iteration; sibling branches have the same exits
     for n in cfg.eval_nodes():
         if n.kind != 'iter':
@@ -155,7 +155,9 @@ def r_heads(prog, tier):
         rootf = [n for n in gc.eval_nodes() if n.kind == 'stmt' and unparse(n.ast) == "%s.data['head'] = False" % tree
                  and not n.loops and gc.postdominates(n.id, gc.entry)]
         loops = [n for n in gc.eval_nodes() if n.kind == 'iter' and unparse(n.ast.iter) == 'trees.preorder(%s)' % tree]
-        v_root = True if (rootf and loops and gc.dominates(rootf[0].id, loops[0].id)) else (False if not any(
+        hidden = any(isinstance(x_, (ast.FunctionDef, ast.Lambda)) and x_ is not g.node for x_ in ast.walk(g.node)) \
+            or bool(prog.opaque_calls(g, [tree]))
+        v_root = True if (rootf and loops and gc.dominates(rootf[0].id, loops[0].id)) else (False if not hidden and not any(
             unparse(n.ast).startswith("%s.data['head']" % tree) for n in gc.eval_nodes() if n.kind == 'stmt') else None)
         w_root = '`%s.data[\'head\'] = False` before the traversal' % tree if rootf else 'root not unmarked'
         if v_root is None:
@@ -172,7 +174,7 @@ def r_heads(prog, tier):
         obs.append(Ob('R-HEADS/MARK', g.fq, 'the root is marked as non-head', v_root, w_root,
                       construct='mark-root', line=g.node.lineno, nontrivial=False))
         if not loops:
-            raise Unrecognised('%s: traversal not found' % g.fq)
+            raise Unrecognised('%s: traversal not found' % g.fq, partial=obs)
         L = loops[0]
         sv = unparse(L.ast.target)
         # children list
@@ -238,6 +240,34 @@ def r_heads(prog, tier):
                      for m in heads):
                 verdict, why = False, 'the head flag is decided per child from its own edge label: several children (or none) ' \
                                       'can be marked'
+        if not ok and verdict is None:
+            # the flag compares a property of the child with the same property of the chosen head (`label == labels[headpos]`):
+            # every sibling that shares the property is marked, too
+            hp = set(nm_ for nm_ in g.locals for (_, v_) in name_defs(g, nm_) if isinstance(v_, ast.Call)
+                     and prog.callee(v_, g) == ('transformconst', 'get_headpos_by_rule'))
+            idxs = set()
+            for e_ in gc.eval_nodes():
+                if e_.kind == 'iter' and isinstance(e_.ast.iter, ast.Call) and unparse(e_.ast.iter.func) == 'enumerate' \
+                        and isinstance(e_.ast.target, ast.Tuple) and isinstance(e_.ast.target.elts[0], ast.Name):
+                    idxs.add(e_.ast.target.elts[0].id)
+            for m in [m_ for m_ in gc.eval_nodes() if m_.kind == 'stmt' and isinstance(m_.ast, ast.Assign)
+                      and unparse(m_.ast.targets[0]).endswith(".data['head']") and L.id in m_.loops]:
+                v_ = m.ast.value
+                if not (isinstance(v_, ast.Compare) and len(v_.ops) == 1 and isinstance(v_.ops[0], ast.Eq)):
+                    continue
+                sides = [v_.left, v_.comparators[0]]
+                if any(isinstance(x_, ast.Name) and (x_.id in idxs or x_.id in hp) for x_ in sides):
+                    continue
+                for x_ in sides:
+                    src_ = x_
+                    if isinstance(x_, ast.Name):
+                        dd_ = [d_ for (_, d_) in name_defs(g, x_.id) if isinstance(d_, ast.AST)]
+                        src_ = dd_[0] if len(dd_) == 1 else x_
+                    if isinstance(src_, ast.Subscript) and isinstance(src_.slice, ast.Name) and src_.slice.id in hp:
+                        verdict = False
+                        why = '`%s` marks a child when it equals `%s`, a value taken from the chosen head, instead of when its ' \
+                              'position is the chosen one: every sibling with the same value is marked head as well' % (
+                                  unparse(m.ast)[:60], unparse(src_))
         if verdict is True and cl:
             # the marking must reach every constituent: a lower bound on the number of children above 1 skips unary nodes
             marks = [m for m in gc.eval_nodes() if m.kind == 'stmt' and isinstance(m.ast, ast.Assign)
@@ -380,7 +410,7 @@ def r_flags(prog, tier):
     tree = f.params[0]
     loops = [n for n in cfg.eval_nodes() if n.kind == 'iter' and unparse(n.ast.iter) == 'trees.postorder(%s)' % tree]
     if len(loops) != 1:
-        raise Unrecognised('boyd_split: postorder traversal not found')
+        raise Unrecognised('boyd_split: postorder traversal not found', partial=obs)
     L = loops[0]
     sv = unparse(L.ast.target)
     hb = None
@@ -419,16 +449,29 @@ def r_flags(prog, tier):
                       'unconditional store at the top of the traversal' if hit else 'the default is missing or '
                       'conditional: raising / get_label read a flag that was never set', construct='flag-dflt:' + key,
                       line=f.node.lineno))
+    # block numbers count the blocks of ONE constituent: a counter that feeds them starts again for every split node
+    for d in devs:
+        if d.keys == ['block_number'] and isinstance(d.value, ast.Name) and L.id in cfg.nodes[d.node].loops:
+            cdefs = name_defs(f, d.value.id)
+            inits = [(nid_, v_) for (nid_, v_) in cdefs if isinstance(v_, ast.Constant) and isinstance(v_.value, int)]
+            incs = [(nid_, v_) for (nid_, v_) in cdefs if isinstance(v_, tuple) and v_[0] == 'aug']
+            if inits and incs and len(inits) + len(incs) == len(cdefs) and all(L.id not in cfg.nodes[nid_].loops for (nid_, _) in inits) \
+                    and all(L.id in cfg.nodes[nid_].loops for (nid_, _) in incs):
+                obs.append(Ob('R-FLAGS/SPLIT', f.fq, 'block numbers start again with every constituent that is split', False,
+                              'the counter `%s` is set to %s once, before the traversal (line %d), and only ever counted up inside it: '
+                              'the blocks of the second constituent that is split continue the numbers of the first' % (
+                                  d.value.id, unparse(inits[0][1]), cfg.nodes[inits[0][0]].lineno),
+                              construct='split-counter:' + d.value.id, line=cfg.nodes[d.node].lineno))
     # the split nodes: one per block, all four flags set
     bl = [n for n in cfg.eval_nodes() if n.kind == 'iter' and L.id in n.loops and unparse(n.ast.iter).startswith('enumerate(')]
     if len(bl) != 1:
-        raise Unrecognised('boyd_split: loop over the blocks not found')
+        raise Unrecognised('boyd_split: loop over the blocks not found', partial=obs)
     B = bl[0]
     iv = unparse(B.ast.target.elts[0])
     fresh = fresh_paths(prog, f)
     fx = [p for p in fresh if p.endswith('[-1]')]
     if not fx:
-        raise Unrecognised('boyd_split: created nodes not found')
+        raise Unrecognised('boyd_split: created nodes not found', partial=obs)
     fp = fx[0]
     creates = [n for n in cfg.eval_nodes() if n.kind == 'stmt' and unparse(n.ast).startswith(fp[:-4] + '.append(')
                and B.id in n.loops]
@@ -456,7 +499,10 @@ def r_flags(prog, tier):
         if key == 'block_number' and estart is None:
             hit = []
             vf = None
-        if not hit:
+        unres = [d for d in data_events(prog, f) if d.kind in ('DATA', 'DATAALL') and unparse(d.x) == fp and not getattr(d, 'keys', None)]
+        if not hit and unres:
+            vf = None                # a store on the new node whose key this rule cannot resolve (a class attribute, a computed key)
+        elif not hit:
             if not anyk and not prog.opaque_calls(f, [fp.split('[')[0]]):
                 vf = False
             elif anyk and one and all(isinstance(d.value, ast.AST) and unparse(d.value) == val for d in anyk):
@@ -518,6 +564,7 @@ def r_flags(prog, tier):
     # consumers read the flags the producer wrote
     f = prog.func('transform', 'raising')
     reads = set()
+    indirect = []
     todo, seen_f = [f], set()
     while todo:
         g_ = todo.pop()
@@ -531,8 +578,26 @@ def r_flags(prog, tier):
                 c_ = prog.callee(n, g_)
                 if c_ is not None and c_[0] == 'transform' and c_[1].startswith('_') and c_[1] in prog.modules['transform'].funcs:
                     todo.append(prog.modules['transform'].funcs[c_[1]])      # a private worker of raising reads for it
-    ok = True if reads == {'split', hb or 'head_block'} else (
-        False if not ({'split', hb or 'head_block'} <= reads) and not prog.opaque_calls(f, [f.params[0]]) else None)
+            # a private function handed on by name (filter(_is_non_head_block, ...)), a method of a private class
+            if isinstance(n, ast.Name) and isinstance(n.ctx, ast.Load) and n.id.startswith('_') and n.id not in g_.locals:
+                tf = prog.modules['transform'].funcs
+                if n.id in tf:
+                    todo.append(tf[n.id])
+                for q_, fn_ in tf.items():
+                    if q_.startswith(n.id + '.'):
+                        todo.append(fn_)
+                        indirect.append(q_)
+    if indirect and not ({'split', hb or 'head_block'} <= reads):
+        # the keys are class attributes or computed in the class: what the methods read is not visible as literals
+        for q_ in indirect:
+            for n in walk_own(prog.modules['transform'].funcs[q_].node):
+                if isinstance(n, ast.Subscript) and isinstance(n.value, ast.Attribute) and n.value.attr == 'data':
+                    reads.add('<computed>')
+    if '<computed>' in reads:
+        ok = None
+    else:
+        ok = True if reads == {'split', hb or 'head_block'} else (
+            False if not ({'split', hb or 'head_block'} <= reads) and not prog.opaque_calls(f, [f.params[0]]) else None)
     obs.append(Ob('R-FLAGS/CONSUMER', f.fq, 'raising reads exactly the flags boyd_split sets on every node', ok,
                   'reads %s' % sorted(reads), construct='consumer-raising', line=f.node.lineno, nontrivial=False))
     # binarization nodes are heads
